@@ -36,6 +36,7 @@ def run(ctx):
     c, p, res = ctx.c, ctx.p, ctx.r
     sched = p.method("BaseInterpreter", "_schedule_state_tasks")
     shared.eligible_bucket_rules(ctx, "R9", "invoke")
+    shared.task_registry_ownership(ctx, "R11")
     # ---- R7 the task of an invoked service is owned by the invoking state ------------------------
     shared.background_tasks_owned(ctx, "R7", only_funcs={"_invoke_service"})
     # ---- R10 sync engine: done.invoke of a child machine is reported only if the child reached a top-level final state ----
